@@ -14,6 +14,7 @@ DECIDED += "; R1 / R2 also: the room is the cap minus the buffer's whole len(); 
 DECIDED += '; R4 also: the datagram length is compared at full width (no narrowing cast); R5 re-derived: SYN / SYN-ACK and their retransmissions advertise advertised_window(recv_buf_cap, 0), no constant; R7 also: a segment that does not advance snd_una may only widen snd_wnd'
 DECIDED += "; R5 also: the occupancy handed to advertised_window is the receive buffer's own len()"
 DECIDED += "; R8 the fabric's KernelConfig is only read after construction (every host gets a copy)"
+DECIDED += '; no raw sequence number is widened before window arithmetic (shared C06-R16)'
 ASSUMPTIONS = ["usize::min / saturating_sub semantics"]
 
 T = "turmoil_net::kernel::socket::Tcb::"
